@@ -133,7 +133,8 @@ def index_fields():
     add("skin_texcoordadr", "nskin", "nskintexvert", -1); add("skin_faceadr", "nskin", "nskinface", -1, "skin_facenum")
     add("skin_boneadr", "nskin", "nskinbone", -1, "skin_bonenum"); add("skin_bonevertadr", "nskinbone", "nskinbonevert", -1, "skin_bonevertnum")
     add("skin_bonebodyid", "nskinbone", "nbody"); add("skin_bonevertid", "nskinbonevert", "nskinvert"); add("skin_pathadr", "nskin", "npaths", -1)
-    add("hfield_adr", "nhfield", "nhfielddata"); add("hfield_pathadr", "nhfield", "npaths", -1); add("tex_pathadr", "ntex", "npaths", -1)
+    # (hfield_adr / tex_adr have data-dependent extents nrow*ncol, nchannel*height*width: left to the special logic)
+    add("hfield_pathadr", "nhfield", "npaths", -1); add("tex_pathadr", "ntex", "npaths", -1)
     add("mat_texid", "nmat", "ntex", -1, k=10)
     # pairs / equalities / tendons / wraps
     add("pair_geom1", "npair", "ngeom"); add("pair_geom2", "npair", "ngeom")
@@ -293,7 +294,7 @@ def sample_entries(rng, n, k):
     return sorted(c)
 
 
-def corruption_cases(ctx, info, img, thorough, fields, table_rows):
+def corruption_cases(ctx, info, img, thorough, fields, table_rows, canonical_resize=False):
     """-> list of dicts: cls, field, edits, note"""
     rng = ctx.rng
     S = img.S
@@ -318,7 +319,7 @@ def corruption_cases(ctx, info, img, thorough, fields, table_rows):
     # consistent resizes: one size changed by +-1, the arrays it dimensions resized, nnames_map and nbuffer recomputed
     resizable = sorted({p["nr"] for p in info["ptrs"]} | {p["ncS"] for p in info["ptrs"] if p["ncS"]})
     resizable = [n for n in resizable if info["sizes"].index(n) < nargs]
-    pick = resizable if thorough else rng.sample(resizable, min(len(resizable), 24))
+    pick = resizable if (thorough or canonical_resize) else rng.sample(resizable, min(len(resizable), 24))
     for name in pick:
         for d in (-1, 1):
             nv = S[name] + d
@@ -341,7 +342,7 @@ def corruption_cases(ctx, info, img, thorough, fields, table_rows):
             for sn in (name, "nnames_map", "nbuffer"):
                 if S2[sn] != S[sn]:
                     ed.append("w%d:%s" % (img.size_off[sn], i64(S2[sn])))
-            case("resize", name, " ".join(ed), "%+d" % d)
+            case("resize", name, " ".join(ed), "%+d" % d, canonical=canonical_resize and d == 1)
     # crafted: nnames_map disagreeing with what mj_makeModel allocates
     K = S["nnames_map"]
     o_map = img.arr_off["names_map"] + img.arr_n["names_map"]
@@ -584,6 +585,9 @@ def classify(ctx, case, model_out, impl_out, covered, mdl_idx, desc, fails, note
         elif arr in covered and v == -1:
             fail("c31:minus-one-with-count-accepted", "the loader accepted %s (address -1 with a non-empty range; every row of the table accepts -1)%s"
                  % (oob, tail))
+        elif arr in covered and cls in ("ref", "type") and field != arr:
+            fail("c31:unvalidated-count-array:%s" % field, "the loader accepted %s %s, which makes %s: %s is validated with a size derived elsewhere, "
+                 "the engine uses %s%s" % (field, case["note"], oob, arr, field, tail))
         elif arr in covered:
             fail("c31:accepted-oob-reference:%s" % arr, "the loader accepted a model with %s although %s is validated (%s %s)%s%s"
                  % (oob, arr, field, case["note"], tail, san))
@@ -683,7 +687,7 @@ def run(ctx):
         for l in trunc_lines(ctx, img, thorough, exhaustive):
             lines.append(l)
             meta.append(("trunc", k))
-        cases = corruption_cases(ctx, info, img, thorough, fields, info["refs"])
+        cases = corruption_cases(ctx, info, img, thorough, fields, info["refs"], canonical_resize=(k == models[0][0]))
         if not thorough:
             # quick tier: bound the number of loads per model
             keep = [c for c in cases if c["canonical"]]
